@@ -9,6 +9,8 @@
                          later; a refused push is the fatal error RecursiveEntity
      CountExpansion      with a SecurityManager: ++count > limit is the fatal error EntityExpansionLimitExceeded,
                          otherwise the start of the entity reference is reported (startEntityReference)
+                         (both branches of scanEntityRef - internal and external parsed entity - push, check and count
+                         alike; `ext` says which entities are external: the binder stores their replacement text in files)
      EndOfEntity         the current reader is exhausted and popped
      EndOfDocument
 
@@ -24,6 +26,7 @@ CONSTANTS NEnt,       \* entities e1..eNEnt
           MaxValLast, \* references in the value of the last entity (keeps the quick tier small)
           MaxDoc,     \* references in the document content
           Limits,     \* entity expansion limits; NoSM (99) = no SecurityManager installed
+          ExtSets,    \* which entities are EXTERNAL parsed entities (a set of subsets of 1..NEnt); the others are internal
           Sites, ScnSet, ApiSet   \* where the binder places the references / which scanners and APIs it runs (same behaviour)
 
 NoSM == 99
@@ -33,10 +36,10 @@ Values(n) == {<<0>> \o r : r \in RefSeqs(n)}                \* item 0 = one char
 DefSets == {d \in [Ents -> Values(MaxVal)] : d[NEnt] \in Values(MaxValLast)}
 Docs == RefSeqs(MaxDoc) \ {<< >>}
 
-VARIABLES defs, doc, lim, stack, phase, count, started, text, verdict, steps
-vars == <<defs, doc, lim, stack, phase, count, started, text, verdict, steps>>
+VARIABLES defs, doc, lim, ext, stack, phase, count, started, text, verdict, steps
+vars == <<defs, doc, lim, ext, stack, phase, count, started, text, verdict, steps>>
 
-Init == /\ defs \in DefSets /\ doc \in Docs /\ lim \in Limits
+Init == /\ defs \in DefSets /\ doc \in Docs /\ lim \in Limits /\ ext \in ExtSets
         /\ stack = << [ent |-> 0, pc |-> 1] >>        \* the document entity
         /\ phase = "scan" /\ count = 0 /\ started = 0 /\ text = << >> /\ verdict = "run" /\ steps = 0
 
@@ -50,7 +53,7 @@ Scanning == verdict = "run" /\ phase = "scan"
 ScanText == /\ Scanning /\ Top.pc <= Len(CurItems) /\ CurItems[Top.pc] = 0
             /\ text' = Append(text, Top.ent)
             /\ stack' = Consume
-            /\ Step /\ UNCHANGED <<defs, doc, lim, phase, count, started, verdict>>
+            /\ Step /\ UNCHANGED <<defs, doc, lim, ext, phase, count, started, verdict>>
 
 \* entities of the readers BELOW the current one (fReaderStack; fCurReaderData is not looked at)
 OnStackBelow == {stack[j].ent : j \in 1..(Len(stack) - 1)}
@@ -60,22 +63,22 @@ ScanEntityRef == /\ Scanning /\ Top.pc <= Len(CurItems) /\ CurItems[Top.pc] > 0
                     IF i \in OnStackBelow
                     THEN /\ verdict' = "recursion" /\ stack' = Consume /\ phase' = phase
                     ELSE /\ stack' = Append(Consume, [ent |-> i, pc |-> 1]) /\ phase' = "pushed" /\ verdict' = verdict
-                 /\ Step /\ UNCHANGED <<defs, doc, lim, count, started, text>>
+                 /\ Step /\ UNCHANGED <<defs, doc, lim, ext, count, started, text>>
 
 CountExpansion == /\ verdict = "run" /\ phase = "pushed"
                   /\ IF lim # NoSM /\ count + 1 > lim
                      THEN verdict' = "limit" /\ started' = started /\ count' = count + 1
                      ELSE verdict' = verdict /\ started' = started + 1 /\ count' = IF lim # NoSM THEN count + 1 ELSE count
                   /\ phase' = "scan"
-                  /\ Step /\ UNCHANGED <<defs, doc, lim, stack, text>>
+                  /\ Step /\ UNCHANGED <<defs, doc, lim, ext, stack, text>>
 
 EndOfEntity == /\ Scanning /\ Top.pc > Len(CurItems) /\ Len(stack) > 1
                /\ stack' = SubSeq(stack, 1, Len(stack) - 1)
-               /\ Step /\ UNCHANGED <<defs, doc, lim, phase, count, started, text, verdict>>
+               /\ Step /\ UNCHANGED <<defs, doc, lim, ext, phase, count, started, text, verdict>>
 
 EndOfDocument == /\ Scanning /\ Top.pc > Len(CurItems) /\ Len(stack) = 1
                  /\ verdict' = "none"
-                 /\ Step /\ UNCHANGED <<defs, doc, lim, stack, phase, count, started, text>>
+                 /\ Step /\ UNCHANGED <<defs, doc, lim, ext, stack, phase, count, started, text>>
 
 Next == ScanText \/ ScanEntityRef \/ CountExpansion \/ EndOfEntity \/ EndOfDocument
 Spec == Init /\ [][Next]_vars
@@ -98,6 +101,10 @@ FullSeq(s, owner, fuel) == IF s = << >> \/ fuel = 0 THEN << >>
                            ELSE (IF Head(s) = 0 THEN <<owner>> ELSE FullSeq(defs[Head(s)], Head(s), fuel - 1)) \o FullSeq(Tail(s), owner, fuel)
 FullText == FullSeq(doc, 0, NEnt + 1)
 
+UsesExternal == Reachable \cap ext # {}
+\* XML 1.0 WFC "No External Entity References": attribute values cannot refer to external entities, so a document
+\* that reaches an external entity is meaningful in content only
+SitesFor(S) == IF UsesExternal THEN S \cap {"content"} ELSE S
 Done == verdict # "run"
 \* at most N expansions precede the fatal error
 ExpansionBound == lim # NoSM => started <= lim /\ count <= lim + 1
